@@ -432,6 +432,16 @@ func Random(w *vt.W, rng *rand.Rand, n int, big bool) {
 		for i := rng.Intn(3) + 1; i > 0; i-- {
 			recs = append(recs, genSeqRec(rng, format == "fastq", offsetOf(cfg), []int{100, 4096, 8193, 20000}[rng.Intn(4)]))
 		}
+		if id%3 == 0 {
+			// a header line longer than bufio's buffer: short words separated by single blanks, so that blanks fall on
+			// and around the 4096-byte fragment boundaries
+			var d []byte
+			for target := []int{4070, 4100, 8170, 8200, 12300}[rng.Intn(5)] + rng.Intn(30); len(d) < target; {
+				d = append(d, word(rng, 1, 2, "")...)
+				d = append(d, ' ')
+			}
+			recs[len(recs)-1]["desc"] = ints(string(bytes.TrimRight(d, " ")))
+		}
 		text, ns, werr := WriteAll(format, cfg, recs, id)
 		total := 0
 		for _, x := range ns {
